@@ -297,6 +297,9 @@ fn build(g: &Grammar, thorough: bool) -> Vec<C2Case> {
             }
         }
         out.push(C2Case { case: Case { label: "record-layout-reverse-positions".into(), class: "reorder".into(), text: doc.text(), spec: None, parts: vec![] }, keep: vec![], limit: None });
+        for (label, text) in position_docs(g) {
+            out.push(C2Case { case: Case { label, class: "reorder".into(), text, spec: None, parts: vec![] }, keep: vec![], limit: None });
+        }
         // file level: PROJECT before ASAP2_VERSION is not valid per I (version first), so only the RECORD_LAYOUT case
     }
     // literals at and beyond the limits of every integer parameter
@@ -485,4 +488,38 @@ pub fn replay(v: &Value) -> Result<String, String> {
         Some((k, w)) => Err(format!("{k}: {w}")),
         None => Ok(outcome),
     }
+}
+
+/// every child kind of RECORD_LAYOUT that carries a position, placed out of position order between two others
+/// (before a smaller and after a larger position), and at the front / at the end
+pub fn position_docs(g: &Grammar) -> Vec<(String, String)> {
+    let mut out = Vec::new();
+    let rl = g.elem("RECORD_LAYOUT").clone();
+    for r in &rl.refs {
+        if !r.in_version(5) {
+            continue;
+        }
+        let Some(ke) = g.get_elem(&r.tag) else { continue };
+        if !matches!(ke.items.first(), Some(Item::Single { name, .. }) if name == "position") {
+            continue;
+        }
+        let others: [&str; 2] = if r.tag == "FNC_VALUES" || r.tag == "AXIS_PTS_X" { ["AXIS_PTS_Y", "NO_AXIS_PTS_X"] } else { ["FNC_VALUES", "AXIS_PTS_X"] };
+        for (arr, order) in [("middle", [0usize, 2, 1]), ("first", [2, 0, 1]), ("last", [1, 0, 2])] {
+            // `order` lists which of (other0, other1, K) comes 1st, 2nd, 3rd; positions: other0 = 30, K = 20, other1 = 10
+            let mut gen = Gen::new(g);
+            let (mut doc, path) = gen.carrier_v("RECORD_LAYOUT", 5, 1);
+            for which in order {
+                let (tag, pos) = match which {
+                    0 => (others[0], 30),
+                    1 => (others[1], 10),
+                    _ => (r.tag.as_str(), 20),
+                };
+                let mut c = gen.min_node(tag, 5, 1);
+                c.params[0].text = pos.to_string();
+                doc.root.at_mut(&path).children.push(c);
+            }
+            out.push((format!("record-layout-position:{}:{arr}", r.tag), doc.text()));
+        }
+    }
+    out
 }
